@@ -16,8 +16,10 @@ For a second operation the first operand is the value actually opened for the fi
 opened float is exactly the secure value), so every operation is judged on its own.
 
 Known findings: F8 (an operand of + - or a comparison is exactly zero: zero carries exponent 0 or the
-stale exponent of the computation that produced it) and F05a (the constructor asserts on floats
-within ~2^-45 relative distance of a power of two).
+stale exponent of the computation that produced it), F05c (that stale exponent lies below the range of
+the exponent type and the next + - or comparison returns garbage), F05a (the constructor asserts on
+floats within ~2^-45 relative distance of a power of two) and F05b (power of two / power of two leaves
+the significand at 1+u and mpc.output asserts).
 """
 import math
 from fractions import Fraction
@@ -56,7 +58,7 @@ DEFAULT_L = {(11, 5): 16, (24, 8): 32, (53, 11): 64}  # SecFlt(l) yields these (
 
 
 def budget(tier):
-    return dict(shards=16, examples=45 if tier == 'quick' else 700)
+    return dict(shards=16, examples=100 if tier == "quick" else 1200)
 
 
 # ------------------------------------------------------------------ exact helpers
@@ -278,6 +280,18 @@ def _gen_record(rng, m, s, e, special):
         rec.update(op='io', a=[rng.choice([1, -1]) * mant, E - 53], ka=rng.choice(['in', 'const']),
                    sa=rng.randrange(m), b=None)
         return rec
+    if special == 'f05c' and rng.randrange(2):
+        # x - x with a small exponent (exact zero with a stale exponent below the type's range), then + - or a
+        # comparison with an operand of large exponent
+        lo, hi, emin, emax = window(s, e)
+        a = _gen_float(rng, s, _pickE(rng, max(lo, emin + 4), min(hi, emin + s)), width=rng.choice([1, 3, s]))
+        op = rng.choice(['-', '+'])
+        b = list(a) if op == '-' else [-a[0], a[1]]
+        (ka, kb), (sa, sb) = _kinds(rng, m, 2)
+        c = _gen_float(rng, s, _pickE(rng, max(lo, hi - 6), hi - 2))
+        rec.update(op=op, a=a, ka=ka, sa=sa, b=b, kb=kb, sb=sb, op2=rng.choice(['+', '-'] + CMP),
+                   side=rng.choice(['l', 'r']), c=c, kc=rng.choice(['in', 'const', 'py']), sc=rng.randrange(m))
+        return rec
     if op == 'io':
         a = [0, 0] if rng.randrange(14) == 0 else _first_operand(rng, op, s, e)
         rec.update(a=a, ka=rng.choice(['in', 'in', 'const']), sa=rng.randrange(m), b=None)
@@ -314,6 +328,8 @@ def _gen_record(rng, m, s, e, special):
         r1 = exact(op, x, y)
         op2 = rng.choice(ARITH + ARITH + CMP)
         side = rng.choice(['l', 'l', 'r'])  # 'l': r1 op2 c ; 'r': c op2 r1
+        if op2 == '/' and op in ('+', '-'):
+            side = 'l'  # a computed sum may cancel to exactly zero: never use it as a divisor
         if r1 == 0:
             if op2 == '/':
                 op2 = '+'
@@ -348,7 +364,7 @@ def build_case(seed, tier):
     s, e = rng.choice(TYPES if tier == 'quick' else TYPES_T)
     if s > 24 and m > 3:
         m, t = 3, 1
-    special = rng.choice(['f05a', 'f05b', 'zero', 'zero'] + ['none'] * 10)
+    special = rng.choice(['f05a', 'f05b', 'f05c', 'zero', 'zero'] + ['none'] * 10)
     nrec = rng.choice([3, 4, 5, 6]) if m <= 3 else rng.choice([2, 3, 4])
     recs = [_gen_record(rng, m, s, e, special) for _ in range(nrec)]
     recv = None
@@ -579,9 +595,14 @@ def run_case(case):
             continue
         outs = [Fraction(o) for o in slot]
         steps = [(op, x, y, outs[0], 0, 0)]
+        ez = None  # internal (hidden) exponent of an exactly-zero first result, from the diagnostic view
         if rec.get('op2'):
             c = fval(rec['c'])
             h = _hidden_exp(op, x, y)
+            dz = [ex for i, sg, ex in res.diag.get(rcv[0], []) if i == idx]
+            if outs[0] == 0 and len(dz) == 2:
+                ez = dz[0]
+                h = min(h, ez + 1)
             steps.append((rec['op2'], outs[0], c, outs[1], h, 0) if rec['side'] == 'l'
                          else (rec['op2'], c, outs[0], outs[1], 0, h))
             labels.append(f"chain:{op}{rec['op2']}")
@@ -613,7 +634,13 @@ def run_case(case):
                 continue
             bs = '' if b is None else repr(float(b))
             where = f'record {idx} step {k}: {float(a)!r} {o} {bs} -> {float(out)!r}; {txt}; rec={rec}'
-            if f8 and _judge_f8(o, a, b, out, u, ha, hb):
+            w = b if a == 0 else a
+            if f8 and k == 1 and ez is not None and w != 0 and fexp(w) - ez >= (1 << e) - 2:
+                # F05c: the stale exponent of the computed zero lies so far below the other operand's exponent
+                # that their difference leaves the range of the secure comparison in __add__: arbitrary result
+                labels.append('F05c-fail')
+                known_fails.append(('F05c', where + f'; hidden exponent of the computed zero: {ez}'))
+            elif f8 and _judge_f8(o, a, b, out, u, ha, hb):
                 known_fails.append(('F8', where))
             else:
                 fails.append(where)
